@@ -27,6 +27,8 @@ field.description = regex_replace(field.description, "^APLPAY\\\\s+", "")
 '''
 OLD_REPORT = '<html>report I kept</html>\n'
 BASES = {'user': c15.SETTINGS_PLAIN, 'userref': c15.SETTINGS_REF}
+# the same user files saved by an editor that writes CRLF line endings (every third history): still the user's bytes
+BASES_CRLF = {k: v.replace('\n', '\r\n') for k, v in BASES.items()}
 
 CMD_ARGS = {
     'explain': ['explain', 'Alfa'],
@@ -50,12 +52,12 @@ def starters():
             'views': tcli.STARTER_VIEWS, 'gitignore': '# Tally - Ignore sensitive data\ndata/\noutput/\n'}
 
 
-def concretise(fs, prefix=''):
+def concretise(fs, prefix='', crlf=False):
     cfg = prefix + 'config/'
     t = {cfg: None}
     s = fs['settings']
     if s['base'] != 'absent':
-        t[cfg + 'settings.yaml'] = BASES[s['base']]
+        t[cfg + 'settings.yaml'] = (BASES_CRLF if crlf else BASES)[s['base']]
     if fs['csv'] == 'R':
         t[cfg + 'merchant_categories.csv'] = c15.R_CSV
     if fs['csvbak'] == 'B':
@@ -75,7 +77,8 @@ def concretise(fs, prefix=''):
     return t
 
 
-def abstract(snap, st, prefix=''):
+def abstract(snap, st, prefix='', crlf=False):
+    BASES = BASES_CRLF if crlf else globals()['BASES']
     cfg = prefix + 'config/'
 
     def get(name):
@@ -190,7 +193,8 @@ def _run_history(item):
     st = starters()
     d = tempfile.mkdtemp(prefix='c20_')
     try:
-        cli.materialise(d, concretise(fs0))
+        crlf = sum(map(ord, hid)) % 3 == 0
+        cli.materialise(d, concretise(fs0, crlf=crlf))
         snaps = [cli.snapshot(d)]
         rcs = []
         written = []
@@ -199,7 +203,7 @@ def _run_history(item):
             rcs.append(r['rc'])
             written.append(sorted({e['path'] for e in r['effects'] if 'path' in e}))
             snaps.append(cli.snapshot(d))
-        states = [abstract(s, st) for s in snaps]
+        states = [abstract(s, st, crlf=crlf) for s in snaps]
         frames = [direct_frame(c, snaps[k], snaps[k + 1]) for k, c in enumerate(cmds)]
         return {'id': hid, 'cmds': cmds, 'states': states, 'frames': frames, 'rcs': rcs, 'written': written}
     finally:
